@@ -13,6 +13,7 @@ import (
 
 	"github.com/go-logr/logr"
 	"github.com/klauspost/compress/s2"
+	"github.com/pckhoi/meow"
 	"github.com/wrgl/wrgl/pkg/encoding/packfile"
 	"github.com/wrgl/wrgl/pkg/ingest"
 	"github.com/wrgl/wrgl/pkg/objects"
@@ -85,14 +86,19 @@ func (r *ObjectReceiver) saveTable(b []byte) (sum []byte, err error) {
 	if err != nil {
 		return
 	}
+	// Index and profile the table before saving the table object itself, so
+	// that a table that exists in the store is always complete. Otherwise a
+	// failure (e.g. a missing block) or a crash in between leaves a table
+	// that looks present but has no index.
+	arr := meow.Checksum(0, b)
+	if err = ingest.IndexTable(r.db, arr[:], tbl, r.logger.V(1)); err != nil {
+		return nil, err
+	}
+	if err = ingest.ProfileTable(r.db, arr[:], tbl); err != nil {
+		return nil, err
+	}
 	sum, err = objects.SaveTable(r.db, b)
 	if err != nil {
-		return
-	}
-	if err = ingest.IndexTable(r.db, sum, tbl, r.logger.V(1)); err != nil {
-		return
-	}
-	if err = ingest.ProfileTable(r.db, sum, tbl); err != nil {
 		return
 	}
 	if r.saveObjHook != nil {
